@@ -17,6 +17,7 @@ import (
 	"verifcheck/internal/prog"
 	"verifcheck/internal/report"
 	"verifcheck/internal/rules"
+	"verifcheck/internal/tab"
 )
 
 func main() {
@@ -41,6 +42,18 @@ func main() {
 			os.Exit(2)
 		}
 		fmt.Printf("%d functions written to %s\n", len(p.Snapshot()), filepath.Join(*verif, "funcs.json"))
+		if tabs, err := tab.ExtractTables(p); err == nil {
+			ref := map[string]tab.TableRef{}
+			for n, t := range tabs {
+				tr := tab.TableRef{ValType: t.ValType}
+				for _, row := range t.Rows {
+					tr.Patterns = append(tr.Patterns, row.Pattern)
+				}
+				ref[n] = tr
+			}
+			_ = report.WriteJSON(filepath.Join(*verif, "tables.json"), ref)
+			fmt.Printf("%d tables written to %s\n", len(ref), filepath.Join(*verif, "tables.json"))
+		}
 		return
 	}
 	prog.SnapshotPath = filepath.Join(*verif, "funcs.json")
